@@ -26,7 +26,15 @@ def attempt(fn, *a, **kw):
 
 out = {"has_orjson": fast_json.HAS_ORJSON, "enc": [], "enc_kw": [], "self_dec": [], "foreign_dec": [],
        "self_dec_bytes": [], "foreign_dec_bytes": []}
-for v in data["values"]:
+out["pretty"] = []
+for k, v in enumerate(data["values"]):
+    # call history: every 5th value is first encoded *pretty* with exactly the keyword names the compact call uses;
+    # state kept between calls (encoder caches, option flags) must not leak into the compact encoding that follows
+    if k % 5 == 0:
+        out["pretty"].append(attempt(fast_json.dumps, v, indent=2, separators=(",", ": "), default=str))
+        attempt(fast_json.dumps, v, indent=4)
+    else:
+        out["pretty"].append(None)
     e = attempt(fast_json.dumps, v)
     out["enc"].append(e)
     # the keyword form the fallback model_dump_json uses
